@@ -13,6 +13,7 @@ sends a flight once E has answered the previous one), items are numbered across 
 events as documented at `itemEvents` / `insEvent`.
 -/
 import Gmsm.Model.Handshake
+import Gmsm.Model.HandshakeSends
 namespace Driver.HS
 open Model.Handshake
 
@@ -263,7 +264,12 @@ def hsflightOp (args : List String) : String :=
       if !validRole role then "bad-op" else
       let c := cfgOf role f
       let fl := flightsOf role f
-      verdict c (streamOf c fl []) false ++ " " ++ ",".intercalate (fl.flatten.map itemName)
+      -- the honest stream used by this driver is `sends (peer c')` of Model.HandshakeSends, about which
+      -- Props.C15Complete proves honest_pair_completes (c' = c with the client's view of whether a certificate
+      -- is requested); a difference would show here, against what the real peer wrote
+      let c' := if isClient role then { c with reqCert := f.cert } else c
+      let tie := if fl.flatten = sends (peer c') then "" else " SENDS-MISMATCH"
+      verdict c (streamOf c fl []) false ++ " " ++ ",".intercalate ((sends (peer c')).map itemName) ++ tie
     | none => "bad-op"
   | _ => "bad-op"
 
